@@ -10,7 +10,7 @@ REQUIRED_THEOREMS = ['Props.C18.split_concat', 'Props.C18.split_sizes', 'Props.C
                      'Props.C18.loader_len_floor', 'Props.C18.loader_batch_exact', 'Props.C18.loader_covers_prefix',
                      'Props.C18.oneHot_row', 'Props.C18.loader_reiterable', 'Props.C18.loops_all_from_start']
 RULE = ('split: every n in a range x test fraction x val fraction (or none) x shuffle off / on with a drawn seed; '
-        'loader: (nx, ny, batch) incl. batch 0, batch > n, with and without transform, iterated twice; programs of 2-5 successive for-loops over one loader object, each abandoned after k batches (break, or explicit iter/next) or exhausted; '
+        'loader: (nx, ny, batch) incl. batch 0, batch > n, with and without transform (callable object, DataLoaderCallback subclass, falsy callable, plain function), iterated twice; programs of 2-5 successive for-loops over one loader object, each abandoned after k batches (break, or explicit iter/next) or exhausted; '
         'one-hot: random integer label lists. A case is non-trivial when n > 0 (and, for split, at least two parts are '
         'non-empty or a shuffle happened); distinct = distinct protocol line')
 EXHAUSTIVE = {'quick': False, 'thorough': False}
@@ -116,11 +116,32 @@ class _TF:
         return ('tf', X, y)
 
 
+class _Pipeline(_TF):
+    """a composed transform with a list of optional stages: a real callable whose truth value is False when the list is empty"""
+    stages = ()
+    def __len__(self): return len(self.stages)
+
+
+def _mk_tf(c):
+    """the transform of a case in one of the shapes a caller may give it: plain callable object, subclass of the library's
+    DataLoaderCallback, object with `__len__() == 0` (falsy), plain function"""
+    if not c['transform']: return None
+    k = (c['nx'] + c['ny'] + c['b']) % 4
+    if k == 0: return _TF()
+    if k == 1:
+        from synapgrad.nn.utils.data import DataLoaderCallback
+        class CB(DataLoaderCallback):
+            def __call__(self, dl, X, y): return ('tf', X, y)
+        return CB()
+    if k == 2: return _Pipeline()
+    return lambda dl, X, y: ('tf', X, y)
+
+
 def _run_loader(c):
     from synapgrad.nn.utils.data import DataLoader
     X = np.arange(c['nx']) * 10
     y = np.arange(c['ny']) + 1000
-    dl = DataLoader(X, y, c['b'], _TF() if c['transform'] else None)
+    dl = DataLoader(X, y, c['b'], _mk_tf(c))
     n = len(dl)
     passes = []
     for _ in range(2):
@@ -140,7 +161,7 @@ def _run_loops(c):
     from synapgrad.nn.utils.data import DataLoader
     X = np.arange(c['nx']) * 10
     y = np.arange(c['ny']) + 1000
-    dl = DataLoader(X, y, c['b'], _TF() if c['transform'] else None)
+    dl = DataLoader(X, y, c['b'], _mk_tf(c))
     loops = []
     def conv(item):
         if c['transform']:
